@@ -71,6 +71,16 @@ groups = {
  'C20': ['marshalTransactionSrc', 'marshalStreamEventSrc', 'marshalColumnDataSrc', 'txStructTags', 'positionStructTags',
          'tableStructTags', 'statementStrings', 'columnTypeStrings', 'statementTypeStringSrc', 'columnTypeStringSrc'] + STMT,
 }
+# file-level pins: the list of source files, and for every file a property is anchored in (properties.jsonl) its
+# declaration inventory and whole-file digest — so that no edit of such a file goes unnoticed by that property's check
+import json as _json
+def _fid(f): return f.replace('/', '_').replace('.go', '').replace('.', '_')
+for _l in open(os.path.join(root, 'properties.jsonl')):
+    _d = _json.loads(_l)
+    _files = list(_d['anchors'].get('files', []))
+    if 'parseEventsSrc' in groups[_d['id']] and 'streamer.go' not in _files:
+        _files.append('streamer.go')
+    groups[_d['id']] = groups[_d['id']] + ['goFiles'] + sum((['inv_' + _fid(f), 'fileDigest_' + _fid(f)] for f in _files), [])
 outdir = os.path.join(root, 'lean/GV/Expect')
 os.makedirs(outdir, exist_ok=True)
 for prop, names in groups.items():
